@@ -218,6 +218,10 @@ def _sample_dtype(prog: Program, res: Result) -> None:
 
 
 def run(prog: Program, res: Result, tier: str) -> None:
+    # ---- R1 (cont.) a row keeps its (sample, polarisation, channel) axes when one of them has length 1 (F36) --------------
+    from ..lints import check_no_bare_squeeze
+    check_no_bare_squeeze(prog, res, "R1", ["sigpyproc.io.pfits"], "a file with one polarisation (or one sample per row) loses that axis and "
+                          "cannot be read at all")
     prog.consulted.update({READERS, PFITS, HEADER, "sigpyproc.utils"})
     rb = prog.func(READERS, "PFITSReader.read_block")
     rp = prog.func(READERS, "PFITSReader.read_plan")
@@ -371,7 +375,11 @@ def run(prog: Program, res: Result, tier: str) -> None:
                                                 "concatenated along time, channel axis flipped iff foff > 0, nothing else applied")] + extra:
         verdict, why = kernelspec.compare(fn, name)
         if verdict == "incomparable":
-            raise AnalysisError(f"{name} cannot be compared with its reference definition: {why[0]}")
+            if any(not o.ok and fn.ident in (o.where or "") for o in res.obligations):
+                # a rule already reported this function: the shape difference is part of that report
+                verdict, why = "different", [f"not comparable with its reference definition ({why[0]})"]
+            else:
+                raise AnalysisError(f"{name} cannot be compared with its reference definition: {why[0]}")
         (res.ok if verdict == "same" else res.bad)("R5", fn, fn.node, (what + "; " if verdict == "same" else f"{name} differs from its definition: ") +
                                                    ("; ".join(why))[:500], construct=name, key=f"{name}:definition")
     # ---- R6 the PSRFITS keys behind the numbers ----------------------------------------------------------------
@@ -424,6 +432,10 @@ R = "sigpyproc/readers.py"
 H = "sigpyproc/header.py"
 P = "sigpyproc/io/pfits.py"
 MUTANTS = [
+    {"id": "c18-revert-F36", "file": "sigpyproc/io/pfits.py", "expect": "C18.R",
+     "old": "        while sdata.ndim > 3 and sdata.shape[0] == 1:\n            sdata = sdata[0]\n", "new": "        sdata = sdata.squeeze()\n"},
+    {"id": "c18-intensity-squeezed", "file": "sigpyproc/io/pfits.py", "expect": "C18.R1",
+     "old": "            data = sdata[:, 0, :]\n\n        return data", "new": "            data = sdata[:, 0, :].squeeze()\n\n        return data"},
     {"id": "c18-one-row-shortcut", "file": "sigpyproc/readers.py", "expect": "C18.R4",
      "old": "            data = self._fitsfile.read_subints(startsub, nsubs)\n            data = data[startsamp : startsamp + block]",
      "new": "            if startsamp == 0 and block == self.sub_hdr.subint_samples:\n                data = self._fitsfile.read_subint_pol(startsub)\n            else:\n                data = self._fitsfile.read_subints(startsub, nsubs)\n                data = data[startsamp : startsamp + block]"},
@@ -469,7 +481,7 @@ MUTANTS += [
     {"id": "c18-offsets-from-scales", "file": P, "expect": "C18.R5",
      "old": "        offsets = self._fits[\"SUBINT\"].data[isub][\"DAT_OFFS\"]", "new": "        offsets = self._fits[\"SUBINT\"].data[isub][\"DAT_SCL\"]"},
     {"id": "c18-coherence-no-sqrt2", "file": P, "expect": "C18.R5",
-     "old": "            scale = 1.0 / np.sqrt(2.0)", "new": "            scale = 1.0 / 2.0"},
+     "old": "            scale = np.float32(1.0 / np.sqrt(2.0))", "new": "            scale = np.float32(1.0 / 2.0)"},
     {"id": "c18-scales-of-row-zero", "file": P, "expect": "C18.R5",
      "old": "            data = data * self.read_scales(isub) + self.read_offsets(isub)", "new": "            data = data * self.read_scales(0) + self.read_offsets(isub)"},
 ]
